@@ -26,7 +26,7 @@ func init() {
 	vc.Register(&vc.Check{
 		ID:    "C30",
 		Level: "exploration",
-		Rule: "cases: every history of up to 2 steps (thorough 3; quick adds all length-3 histories over 8 of the edits) over an alphabet of RPC tag edits (set / delete / both, 1-2 keys, keys {a, b, 'é', 'role', '', a key with quote, backslash, newline and control characters}, values {'', 'x', JSON-hostile characters, 300 bytes, 600 bytes, the two lengths at the metadata limit +0/+1}) plus 'restart' (shut the agent down, start a new one from the same tags file), run against a real agent (real IPC handleTags -> Agent.SetTags -> Serf.SetTags, inert memberlist) with a real tags file; after every step a fresh agent.Create on the same tags file is compared with the tags in effect. non-trivial = history containing an edit that changes the tags or is rejected",
+		Rule:  "cases: every history of up to 2 steps (thorough 3; quick adds all length-3 histories over 8 of the edits) over an alphabet of RPC tag edits (set / delete / both, 1-2 keys, keys {a, b, 'é', 'role', '', a key with quote, backslash, newline and control characters}, values {'', 'x', JSON-hostile characters, 300 bytes, 600 bytes, the two lengths at the metadata limit +0/+1}) plus 'restart' (shut the agent down, start a new one from the same tags file), run against a real agent (real IPC handleTags -> Agent.SetTags -> Serf.SetTags, inert memberlist) with a real tags file; after every step a fresh agent.Create on the same tags file is compared with the tags in effect. non-trivial = history containing an edit that changes the tags or is rejected",
 		Assumptions: []string{
 			"'tags in effect' = Serf().LocalMember().Tags of the running agent; 'tags loaded at the next start' = SerfConfig().Tags of a fresh agent.Create with the same TagsFile and an empty tag configuration",
 			"an edit whose result encodes (serf's own tag encoder) to at most memberlist.MetaMaxSize = 512 bytes must take effect; for a larger one the only requirement is persisted == effective",
